@@ -164,8 +164,11 @@ func genHistory(r *rand.Rand, profile string) History {
 			}
 		}
 		ntx := pick(r, []int{0, 0, 1, 1, 1, 2, 3})
-		if b < 2 {
-			ntx = 0 // CheckTx for heights 1 and 2 still runs at a genesis height, where the PoA decorators are off
+		if b == 1 {
+			ntx = 0 // height 2: CheckTx still runs at height 1, where the PoA decorators are off, DeliverTx at 2, where they are on
+		}
+		if b == 0 && ntx > 1 {
+			ntx = 1
 		}
 		for t := 0; t < ntx; t++ {
 			var msgs []MsgSpec
